@@ -16,7 +16,29 @@ ASSUMPTIONS = {
     ],
 }
 
-PROPERTY_NOTES = {}
+PROPERTY_NOTES = {
+    'C01': 'Round trip decided per record type from codec contracts: copy constructors keep every component; header layout; float/int kernels.',
+    'C02': 'Reader kernels proved equal to the little-endian / two\'s-complement reading of the bytes for every byte string.',
+    'C03': 'Header layout of saved files proved against the specification table (appendix A.1 of DESIGN.md).',
+    'C04': 'Header fields that are not derivable from parameters are proved to be re-emitted from the loaded members.',
+    'C05': 'Derived header counts proved against their arithmetic meaning; the c3d-level invariant units are listed in DESIGN.md.',
+    'C06': 'Append / replace / extend proved for every data-set size and index, other frames unchanged at a ghost index.',
+    'C07': '',
+    'C08': 'Stored frames proved to own fresh copies of points and analogs, distinct from the caller\'s and from other frames\'.',
+    'C09': 'Shape predicate proved equal to the product predicate; setters proved to store exactly what was given or to refuse.',
+    'C10': 'Exceptional postconditions: refused => unchanged, for the mutators under contract.',
+    'C11': 'Positional accessors proved for every 64-bit index; typed getters proved to guard on the type.',
+    'C12': 'Byte assembly proved for every bit pattern (symbolic bytes), floats compared as bit patterns.',
+    'C13': 'CBMC pointer / bounds / allocation-kind / container-index obligations of every unit under the valid-state preconditions.',
+    'C14': 'Writers assign only the stream (frame conditions) and every output byte equals an expression over the object.',
+    'C15': 'c3d::write proved to throw ios_failure whenever open, any write or the final flush fails (nondeterministic faults).',
+    'C16': '',
+    'C17': 'Header words proved exact at the 16-bit limits; over-limit clauses are the recorded known findings.',
+    'C18': 'Sufficient source-level condition: frame conditions of every unit name only objects reachable from the arguments; '
+           'no schedule is explored (contracts cannot).',
+    'C19': 'Sufficient source-level condition: no undefined behaviour (overflow, shift, out-of-range conversion) and a unique '
+           'functional result in the anchored functions; build configurations are not explored (contracts cannot).',
+}
 
 K = 'contracts/kernels.c'
 
